@@ -668,5 +668,296 @@ def c20(ctx):
     run_regions(ctx, res, cases, lambda e, ops, obs: ref_oracle(e, ops, obs, [paired_clause(0, 1), paired_clause(2, 3), heap_pair]), 'full')
     return res
 
-PROPS = {'C01': c01, 'C02': c02, 'C04': c04, 'C08': c08, 'C09': c09, 'C10': c10, 'C11': c11, 'C12': c12,
-         'C13': c13, 'C14': c14, 'C16': c16, 'C20': c20}
+
+# ================================================================== index containers (C05, C19)
+W64 = 2 ** 64; W32 = 2 ** 32
+def stride_prefix_len(l):
+    """length of the longest prefix of l of the documented shape 0, s, 2s, ... then repeats of the last"""
+    if not l or l[0] != 0: return 0
+    if len(l) == 1: return 1
+    s = l[1]; c = 2
+    while c < len(l) and l[c] == s * c and s * c < W64: c += 1
+    k = c
+    while k < len(l) and l[k] == s * (c - 1): k += 1
+    # a repeat right after the strided part may equally be read as a continuation when s == 0
+    return k
+def stride_shape(l): return stride_prefix_len(l) == len(l)
+def ilist_cost(r):
+    k = next((i for i, x in enumerate(r) if x >= W32), len(r))
+    return [4 * k, 8 * (len(r) - k)]
+def iopt_cost(l):
+    return ilist_cost(l[stride_prefix_len(l):])
+
+def ic_case_str(kind, ops): return kind + ';' + ';'.join(ops)
+
+def run_ic_cases(ctx, res, cases, cost_oracle=False):
+    """cases: list of (kind, [op strings], [python ops]) ; python ops: ('p', x) ('e', [..]) ('c',) ('o',)"""
+    hist = [(k, o) for k, o, _ in cases]
+    for prof in PROFILES:
+        impl = lib.run_impl('ic', hist, prof)
+        model = lib.run_model('ic', hist, prof, None)
+        for (kind, ostr, ops), io, mo in zip(cases, impl, model):
+            res.evaluations += 1
+            io = [g[0] if g else '' for g in io]; mo = [g[0] if g else '' for g in mo]
+            f = ic_oracle(kind, ops, io, cost_oracle)
+            if f:
+                res.failures.append({'kind': 'oracle', 'entry': kind, 'profile': prof, 'history': ostr, 'what': f,
+                                     'observed': io, 'model': mo, 'known': None})
+            res.compared += 1
+            # projection: everything the model predicts (capacities are the implementation's only)
+            def strip(o):
+                if o.startswith('[') and kind != 'stride':
+                    v = gen.parse(o)
+                    if len(v) == 7: return gen.show(v[:6])
+                return o
+            pi = [strip(o) for o in io]
+            if pi != mo:
+                t = next((i for i in range(max(len(pi), len(mo))) if i >= len(pi) or i >= len(mo) or pi[i] != mo[i]), 0)
+                res.corr.append({'kind': 'index-container', 'entry': kind, 'profile': prof, 'history': ostr,
+                                 'first_difference_at_op': t, 'impl': io, 'model': mo})
+        res.per_profile[prof] = res.per_profile.get(prof, 0) + len(cases)
+
+def ic_oracle(kind, ops, obs, cost):
+    l = []; state = None; spilled_ever = False
+    for t, op in enumerate(ops):
+        if t >= len(obs): return f'op {t}: no observation (previous: {obs[-1] if obs else None})'
+        o = obs[t]
+        if o in ('P', 'CRASH'): return f'op {t} {op}: the container panicked (sequence so far {[hex(x) for x in l]})'
+        if op[0] == 'p':
+            if kind == 'stride':
+                v = gen.parse(o); ok, st = v[0], v[1]
+                want = stride_shape(l + [op[1]])
+                if bool(ok) != want: return f'op {t}: Stride::push({op[1]:#x}) returned {bool(ok)} after {[hex(x) for x in l]}; the documented pattern says {want}'
+                if not ok and state is not None and st != state: return f'op {t}: a rejected push changed the state {state} -> {st}'
+                if not ok and state is None and st != [0]: return f'op {t}: a rejected push changed the empty state to {st}'
+                if ok: l.append(op[1])
+                state = st
+            else:
+                l.append(op[1])
+                if cost and kind == 'iopt' and not spilled_ever and not stride_shape(l): spilled_ever = True
+        elif op[0] == 'e':
+            l += op[1]
+            if cost and kind == 'iopt' and not spilled_ever and not stride_shape(l): spilled_ever = True
+        elif op[0] == 'c': l = []; state = None
+        elif op[0] == 'o':
+            v = gen.parse(o)
+            if v[0] != len(l): return f'op {t}: len {v[0]} for sequence {[hex(x) for x in l]}'
+            if v[1] != (1 if not l else 0): return f'op {t}: is_empty {v[1]} for a sequence of length {len(l)}'
+            if v[2] != [('S', x) for x in l]: return f'op {t}: index() yields {gen.show(v[2])} for sequence {[hex(x) for x in l]}'
+            if kind == 'stride':
+                if v[3] != ('S', l): return f'op {t}: iteration yields {gen.show(v[3])} for {[hex(x) for x in l]}'
+            else:
+                if v[3] != [None, None]: return f'op {t}: index(len), index(len+1) did not panic: {gen.show(v[3])}'
+                if v[4] != ('S', l): return f'op {t}: iteration yields {gen.show(v[4])} for {[hex(x) for x in l]}'
+                if cost:
+                    want = {'vec': [8 * len(l)], 'ilist': ilist_cost(l), 'iopt': iopt_cost(l)}[kind]
+                    if v[5] != want: return f'op {t}: heap_size used {v[5]} but the documented rule gives {want} for {[hex(x) for x in l]}'
+                    if kind == 'iopt' and want != [0, 0]: spilled_ever = True
+                    if kind == 'iopt' and not spilled_ever and v[6] != [0, 0]:
+                        return f'op {t}: a purely strided sequence holds capacity {v[6]}'
+    return None
+
+def ic_alphabet(s):
+    return [min(x, W64 - 1) for x in [0, s, 2 * s, 3 * s, 7, W32 - 1, W32, 2 ** 63, W64 - 1]]
+
+def ic_exhaustive_cases(L, strides, kinds, with_clear=True):
+    import itertools
+    cases = []
+    for s in strides:
+        alpha = [('p', x) for x in dict.fromkeys(ic_alphabet(s))] + ([('c',)] if with_clear else [])
+        for seq in itertools.product(alpha, repeat=L):
+            ops = []
+            for a in seq:
+                ops.append(a); ops.append(('o',))
+            ostr = [('p %x' % a[1]) if a[0] == 'p' else a[0] for a in ops]
+            for k in kinds:
+                cases.append((k, ostr, ops))
+    return cases
+
+def ic_random_cases(ctx, n, kinds, maxlen):
+    cases = []
+    for _ in range(n):
+        s = ctx.rng.choice([0, 1, 2, 3, 8, 1000, W32 - 1, W32, 2 ** 62, 2 ** 63, W64 - 1])
+        m = ctx.rng.choice([5, 20, maxlen]); ops = []
+        pool = ic_alphabet(s) + [ctx.rng.randrange(W64), ctx.rng.randrange(W32)]
+        c = 0
+        for _ in range(m):
+            r = ctx.rng.random()
+            if r < 0.55: ops.append(('p', (s * c) % W64 if s * c < W64 else W64 - 1)); c += 1   # continue the stride
+            elif r < 0.7 and c > 0: ops.append(('p', min(s * (c - 1), W64 - 1)))                      # repeat the last
+            elif r < 0.9: ops.append(('p', ctx.rng.choice(pool)))
+            elif r < 0.95: ops.append(('e', [ctx.rng.choice(pool) for _ in range(ctx.rng.randrange(4))]))
+            else: ops.append(('c',)); c = 0
+            if ctx.rng.random() < 0.3: ops.append(('o',))
+        ops.append(('o',))
+        ostr = []
+        for a in ops:
+            if a[0] == 'p': ostr.append('p %x' % a[1])
+            elif a[0] == 'e': ostr.append('e ' + gen.show(a[1]))
+            else: ostr.append(a[0])
+        for k in kinds:
+            if k == 'stride' and any(a[0] == 'e' for a in ops): continue
+            cases.append((k, ostr, ops))
+    return cases
+
+def note_ic(res, cases):
+    for k, ostr, ops in cases:
+        s = ic_case_str(k, ostr)
+        if sum(1 for a in ops if a[0] == 'p') >= 2: res.nontrivial.add(s)
+    for k, ostr, ops in cases[:: max(1, len(cases) // 5)][:5]:
+        res.samples.append({'container': k, 'ops': ostr})
+
+def c05(ctx):
+    res = Result()
+    L = 4 if not ctx.thorough else 6
+    res.rule = (f'exhaustive: every sequence of {L} operations over push(x), x in {{0, s, 2s, 3s, 7, 2^32-1, 2^32, 2^63, 2^64-1}} '
+                'for s in {1, 3}, and clear, observed after every operation (len, is_empty, index(i) for all i < len, '
+                'index(len), index(len+1), iteration), on Vec<usize>, IndexList, IndexOptimized and Stride (push result and '
+                'public enum value), both build profiles; plus long random sequences that continue / repeat / break '
+                'strides with extend; non-trivial = distinct sequence with >= 2 pushes')
+    kinds = ['vec', 'ilist', 'iopt', 'stride']
+    cases = ic_exhaustive_cases(L, [1, 3], kinds)
+    cases += ic_random_cases(ctx, 300 if not ctx.thorough else 3000, kinds, 200)
+    note_ic(res, cases)
+    res.exhaustive = True
+    res.extra['exhaustive_part'] = f'all operation sequences of length {L} over the 10-letter alphabet (9 values + clear), strides 1 and 3, 4 containers'
+    run_ic_cases(ctx, res, cases)
+    return res
+
+# ================================================================== FlatStack (C03, C19)
+FS_NUMBERING = {name: i for i, (name, _, _) in enumerate(catalogue.FS_ENTRIES)}
+FS_EXPR = {name: (e, o) for name, e, o in catalogue.FS_ENTRIES}
+
+def fs_op_str(op):
+    k = op[0]
+    if k == 'copy': return 'copy ' + gen.show(op[1])
+    if k in ('extend', 'fromiter'): return k + ' ' + gen.show(list(op[1]))
+    if k == 'reserve': return 'reserve %x' % op[1]
+    return k
+
+def fs_oracle(e, o, ops, obs, index_free=False):
+    l = []; ieee = uses_ieee(e)
+    for t, op in enumerate(ops):
+        if t >= len(obs): return f'op {t}: no observation (last: {obs[-1] if obs else None})'
+        g = obs[t]
+        if g in ('[62]', '[63]', 'CRASH'): return f'op {t} ({fs_op_str(op)}): panicked or ill-typed ({g})'
+        k = op[0]
+        if k == 'copy': l.append(op[1])
+        elif k == 'extend': l += list(op[1])
+        elif k == 'fromiter': l = list(op[1])
+        elif k == 'clear': l = []
+        elif k == 'observe':
+            v = gen.parse(g)
+            ps = [expected_probe(e, x) for x in l]
+            if v[0] != len(l): return f'op {t}: len() = {v[0]}, {len(l)} values were copied'
+            if v[1] != (1 if not l else 0): return f'op {t}: is_empty() = {v[1]} with {len(l)} values'
+            if not wire_equiv(v[2], [('S', p) for p in ps], ieee): return f'op {t}: get(i) yields {gen.show(v[2])}, copied values are {gen.show(ps)}'
+            if v[3] != [None, None]: return f'op {t}: get(len) / get(len+1) did not panic: {gen.show(v[3])}'
+            if not wire_equiv(v[4], ('S', [('S', p) for p in ps]), ieee): return f'op {t}: iteration yields {gen.show(v[4])}, copied values are {gen.show(ps)}'
+            if not wire_equiv(v[5], ('S', [('S', p) for p in ps[1:]]), ieee): return f'op {t}: a cloned iterator after one step yields {gen.show(v[5])}'
+            if len(v) > 7 and v[7] != 1: return f'op {t}: size_hint does not bound the number of remaining items'
+            if index_free:
+                if any(x != 0 for x in v[6]): return f'op {t}: the stack spends {v[6]} bytes on its own indices over a dense-index region'
+                if len(v) > 8 and any(x != 0 for x in v[8]): return f'op {t}: the stack holds index capacity {v[8]} over a dense-index region'
+    return None
+
+def gen_fs_cases(ctx, names, n, maxops, observe_each=True):
+    cases = []
+    for name in names:
+        e, o = FS_EXPR[name]
+        for _ in range(n):
+            vg = gen.ValueGen(ctx.rng, big=ctx.thorough); sh = shape(e); recent = []
+            def val():
+                if recent and ctx.rng.random() < 0.3: return ctx.rng.choice(recent[-4:])
+                v = vg.gen(sh); recent.append(v); return v
+            ops = []
+            for _ in range(ctx.rng.choice([2, 5, maxops])):
+                r = ctx.rng.random()
+                if r < 0.5: ops.append(('copy', val()))
+                elif r < 0.65: ops.append(('extend', [val() for _ in range(ctx.rng.randrange(5))]))
+                elif r < 0.72: ops.append(('fromiter', [val() for _ in range(ctx.rng.randrange(5))]))
+                elif r < 0.8: ops.append(('clear',))
+                elif r < 0.88: ops.append(('clone',))
+                else: ops.append(('reserve', ctx.rng.choice([0, 1, 10, 100])))
+                if observe_each: ops.append(('observe',))
+            ops.append(('observe',))
+            cases.append((name, ops))
+    return cases
+
+def run_fs_cases(ctx, res, cases, index_free_names=()):
+    hist = [(n, [fs_op_str(o) for o in ops]) for n, ops in cases]
+    for prof in PROFILES:
+        impl = lib.run_impl('fs', hist, prof)
+        model = lib.run_model('fs', hist, prof, FS_NUMBERING)
+        for (name, ops), io, mo in zip(cases, impl, model):
+            res.evaluations += 1
+            e, o = FS_EXPR[name]
+            io = [g[0] if g else '' for g in io]; mo = [g[0] if g else '' for g in mo]
+            f = fs_oracle(e, o, ops, io, name in index_free_names)
+            if f:
+                res.failures.append({'kind': 'oracle', 'entry': name, 'rust_type': f'FlatStack<{catalogue.rust_type(e)}, {o}>',
+                                     'profile': prof, 'history': [fs_op_str(x) for x in ops], 'what': f,
+                                     'observed': io, 'model': mo, 'known': None})
+            res.compared += 1
+            def strip(x):
+                if x.startswith('['):
+                    v = gen.parse(x)
+                    if len(v) == 9: return gen.show(v[:7])
+                return x
+            pi = [strip(x) for x in io]
+            if pi != mo:
+                t = next((i for i in range(max(len(pi), len(mo))) if i >= len(pi) or i >= len(mo) or pi[i] != mo[i]), 0)
+                res.corr.append({'kind': 'flatstack', 'entry': name, 'profile': prof, 'history': [fs_op_str(x) for x in ops],
+                                 'first_difference_at_op': t, 'impl': io, 'model': mo})
+        res.per_profile[prof] = res.per_profile.get(prof, 0) + len(cases)
+
+def note_fs(res, cases):
+    for name, ops in cases:
+        s = name + ';' + ';'.join(fs_op_str(o) for o in ops)
+        if sum(1 for o in ops if o[0] in ('copy', 'extend', 'fromiter')) >= 2: res.nontrivial.add(s)
+        for o in ops: res.tag(o[0])
+    for name, ops in cases[:: max(1, len(cases) // 5)][:5]:
+        res.samples.append({'entry': name, 'ops': [fs_op_str(o) for o in ops]})
+
+def c03(ctx):
+    res = Result()
+    res.rule = ('FlatStack<R, S> over 14 region x index-container pairs (Vec, IndexOptimized, IndexList; string, slice, '
+                'mirror<usize> with extreme values, consecutive-pair, columns, collapse, option regions): random histories '
+                'of copy / extend / from_iter / clear / clone / reserve, observed after every step: len, is_empty, get(i) '
+                'for every i < len, get(len), get(len+1) (must panic), iteration, a cloned iterator after one step, '
+                'size_hint bounds; compared with a Python list of the copied values and with the Coq FlatStack model')
+    cases = gen_fs_cases(ctx, list(FS_EXPR), 25 if not ctx.thorough else 300, 14)
+    note_fs(res, cases)
+    run_fs_cases(ctx, res, cases)
+    return res
+
+def c19(ctx):
+    res = Result()
+    L = 4 if not ctx.thorough else 6
+    res.rule = (f'(a) exhaustive: every sequence of {L} pushes over the transition-covering alphabet of C05 (strides 1 and 3), '
+                'heap_size used bytes of IndexOptimized / IndexList / Vec compared after every push with the documented rule '
+                '(stride-matching prefix free; remainder 4 bytes per entry while values fit u32, 8 bytes from the first larger '
+                'value on) and zero capacity while purely strided; (b) long dense / strided / saturated / random sequences; '
+                '(c) FlatStack<_, IndexOptimized> over consecutive-pair and columns regions with arbitrary contents: zero '
+                'index bytes and zero index capacity for any number of items')
+    kinds = ['vec', 'ilist', 'iopt']
+    cases = ic_exhaustive_cases(L, [1, 3], kinds, with_clear=False)
+    cases += ic_random_cases(ctx, 200 if not ctx.thorough else 2000, kinds, 400)
+    # long regular shapes
+    for s, n, r in [(1, 3000, 0), (3, 500, 200), (0, 300, 0), (W32, 50, 10), (2 ** 62, 3, 5), (7, 2, 300)]:
+        ops = [('p', s * i) for i in range(n) if s * i < W64] + [('p', min(s * (n - 1), W64 - 1))] * r + [('o',)]
+        ostr = [('p %x' % a[1]) if a[0] == 'p' else a[0] for a in ops]
+        for k in kinds: cases.append((k, ostr, ops))
+    note_ic(res, cases)
+    res.exhaustive = True
+    res.extra['exhaustive_part'] = f'all push sequences of length {L} over the 9-value alphabet, strides 1 and 3, 3 containers'
+    run_ic_cases(ctx, res, cases, cost_oracle=True)
+    dense = [n for n, (e, o) in FS_EXPR.items() if o == 'iopt' and e[0] in ('con', 'cols')]
+    fcases = gen_fs_cases(ctx, dense, 30 if not ctx.thorough else 300, 40, observe_each=False)
+    # no clear/from_iter needed to stay dense, but they are allowed: indices restart at 0
+    note_fs(res, fcases)
+    run_fs_cases(ctx, res, fcases, index_free_names=set(dense))
+    return res
+
+PROPS = {'C01': c01, 'C02': c02, 'C03': c03, 'C04': c04, 'C05': c05, 'C08': c08, 'C09': c09, 'C10': c10, 'C11': c11,
+         'C12': c12, 'C13': c13, 'C14': c14, 'C16': c16, 'C19': c19, 'C20': c20}
